@@ -15,7 +15,7 @@ def run(ctx):
     F = ctx.facts
     ctx.explanation = ("placement of the shutdown observation (only the idle loop of Client::handle polls the broadcast receiver; nothing reachable from the transaction loop touches it), "
                        "the admin-only gate wiring from the SIGINT arm to Client::startup, +1/-1 drain pairing around every Client::handle call, and the arms of main's select loop, over lib+bin MIR")
-    ctx.assumptions = ["timing (shutdown_timeout), process exit status and the order of select! readiness are not decided", "tokio::select! numbers its output arms in the order the branch futures are created",
+    ctx.assumptions = ["timing (shutdown_timeout), process exit status and the order of select! readiness are not decided", "tokio::select! numbers its output arms after the elements of its tuple of branch futures (the local the macro names `futures`)",
                        "a panic inside handle skips the -1 (exit then happens by timeout): reported, not armed"]
     # ---------------- R1
     r1 = ctx.rule("C17-R1", "a running transaction is never interrupted by shutdown: the shutdown receiver is polled only in the idle loop; on shutdown a non-admin client gets the administrator-command error and is disconnected, an admin client keeps reading", floor=4)
@@ -155,8 +155,59 @@ def run(ctx):
             d = sw.discr()
             if d and re.match(r"^pgcat::main::.*__tokio_select_util::Out<", d[0]):
                 sel = (sw, d)
-        sigs = m.calls("re:^tokio::signal::unix::Signal::recv$")
-        if not sel or len(sigs) < 3:
+        # which signal each arm of the select waits for: arm _i is the i-th element of the tuple of branch futures; that future is `signal.recv()` itself or an
+        # async block that waits for several signals and says in its result which one came (then the arm's paths are split by that result)
+        def sel_model(body):
+            sl = None
+            for sw_ in switches(body):
+                d_ = sw_.discr()
+                if d_ and re.search(r"__tokio_select_util::Out<", d_[0]):
+                    sl = (sw_, d_)
+            if not sl:
+                return None
+            n = len([v for v in sl[1][2] if v.startswith("_")])
+            tup = None
+            for blk in body.blocks:
+                for st in blk["stmts"]:
+                    if st["k"] == "assign" and st["rv"]["k"] == "agg" and st["rv"]["agg"] == "tuple" and len(st["rv"]["ops"]) == n and not st["lhs"]["p"] \
+                            and "futures" in body.varnames.get(st["lhs"]["l"], []):
+                        tup = st["rv"]["ops"]
+            return (sl[0], sl[1], tup) if tup else None
+
+        def sig_kinds(body, op, upv=None):
+            ks = set()
+            for o in origins(body, op, taint=True):
+                if o.kind == "call" and "SignalKind" in o.call.name:
+                    ks.add(o.call.name.split("::")[-1])
+                elif upv and o.kind in ("place", "param") and o.what == 1 and o.proj and o.proj[0][1:].isdigit() and int(o.proj[0][1:]) < len(upv[1]):
+                    ks |= sig_kinds(upv[0], upv[1][int(o.proj[0][1:])])
+            return ks
+        mm = sel_model(m)
+        # signal -> [(arm variant, None | the value of the arm's payload that stands for it)]
+        sig_arm = {}
+        if mm:
+            for i, op in enumerate(mm[2]):
+                for o in origins(m, op):
+                    if o.kind == "call" and o.call.is_("re:^tokio::signal::unix::Signal::recv$"):
+                        for k in sig_kinds(m, o.call.args[0]):
+                            sig_arm.setdefault(k, []).append(("_%d" % i, None))
+                    elif o.kind == "agg" and o.extra.get("agg") in ("coroutine", "closure"):
+                        nb = F.body("bin:" + strip_generics(o.extra["def"]))
+                        nm = sel_model(nb) if nb else None
+                        if not nm:
+                            continue
+                        for j, op2 in enumerate(nm[2]):
+                            tgt = nm[1][2].get("_%d" % j)
+                            if tgt is None:
+                                continue
+                            reg_j = {b_ for b_ in nb.reach([tgt]) if nb.dominates(tgt, b_)}
+                            vals = {const_int(st["rv"].get("op")) for b_ in reg_j for st in nb.blocks[b_]["stmts"]
+                                    if st["k"] == "assign" and st["lhs"]["l"] == 0 and not st["lhs"]["p"] and st["rv"]["k"] == "use"}
+                            for o2 in origins(nb, op2):
+                                if o2.kind == "call" and o2.call.is_("re:^tokio::signal::unix::Signal::recv$") and len(vals) == 1 and None not in vals:
+                                    for k in sig_kinds(nb, o2.call.args[0], (m, o.extra["ops"])):
+                                        sig_arm.setdefault(k, []).append(("_%d" % i, next(iter(vals))))
+        if not sel or not mm or len(sig_arm) < 2:
             r4.missing("select! output switch / signal receivers in main")
         else:
             sw, d = sel
@@ -165,19 +216,24 @@ def run(ctx):
             loop = natural_loop(m, min(rmh)) if rmh else set()
             head = min(rmh) if rmh else None
 
-            def arm_region(v):
-                return {b_ for b_ in m.reach([arms[v]], avoid_blocks=[head] if head is not None else []) if m.dominates(arms[v], b_)}
-            # which signal each recv waits for
-            kinds = []
-            for c in sorted(sigs, key=lambda c: c.block):
-                k = {o.call.name.split("::")[-1] for o in origins(m, c.args[0], taint=True) if o.kind == "call" and "SignalKind" in o.call.name}
-                kinds.append(k)
-            idx_int = next((i for i, k in enumerate(kinds) if "interrupt" in k), None)
-            idx_term = next((i for i, k in enumerate(kinds) if "terminate" in k), None)
-            idx_hup = next((i for i, k in enumerate(kinds) if "hangup" in k), None)
-            r4.check(None not in (idx_int, idx_term, idx_hup), "signals", "SIGHUP, SIGINT and SIGTERM are all awaited in the loop", "signal kinds awaited: %s" % kinds)
-            if idx_int is not None and "_%d" % idx_int in arms:
-                reg = arm_region("_%d" % idx_int)
+            def arm_region(v, val=None):
+                """the blocks of arm v; with `val`, only those reached when the arm's payload has that value"""
+                av = []
+                if val is not None:
+                    for sw2 in msw:
+                        if sw2.is_bool() and any(o.kind == "place" and ("@" + v) in o.proj for o in sw2.origins()) and not any(o.kind in ("un", "bin") for o in sw2.origins()):
+                            te, fe = sw2.bool_edges()
+                            av.append(fe if val else te)
+                return {b_ for b_ in m.reach([arms[v]], avoid_blocks=[head] if head is not None else [], avoid_edges=av) if m.dominates(arms[v], b_)}, av
+
+            def leaves(reg, av=()):
+                return [b_ for b_ in reg if any(s_ not in loop and (b_, s_) not in av and m.blocks[s_]["term"]["k"] != "unreachable" and not m.blocks[s_]["cleanup"] for s_ in m.succ("n")[b_])]
+            r4.check(all(k in sig_arm for k in ("hangup", "interrupt", "terminate")), "signals", "SIGHUP, SIGINT and SIGTERM are all awaited in the loop", "signal kinds awaited: %s" % sorted(sig_arm))
+            term_arms = {v for v, _ in sig_arm.get("terminate", [])}
+            for v_int, val in sig_arm.get("interrupt", []):
+                if v_int not in arms:
+                    continue
+                reg, av = arm_region(v_int, val)
                 bs = [c for c in m.calls("re:^tokio::sync::broadcast::Sender::send$") if c.block in reg]
                 spn = [c for c in m.calls("re:^tokio::task::spawn::spawn$") if c.block in reg]
                 r4.check(bool(bs), "sigint:broadcast", "the SIGINT arm broadcasts the shutdown to client tasks", "the SIGINT arm does not broadcast shutdown")
@@ -203,12 +259,18 @@ def run(ctx):
                 ao = m.locals_named("admin_only")
                 sets = [d_[1] for d_ in m.defs().get(ao[0], []) if d_[0] == "assign" and const_int(d_[3]["rv"].get("op")) == 1] if ao else []
                 r4.check(bool(sets) and all(s_ in reg for s_ in sets), "sigint:admin_only", "admin_only is set in the SIGINT arm", "admin_only is not set in the SIGINT arm")
-                exits = [b_ for b_ in reg if any(s_ not in loop and m.blocks[s_]["term"]["k"] != "unreachable" and not m.blocks[s_]["cleanup"] for s_ in m.succ("n")[b_])]
-                r4.check(not exits, "sigint:stays", "the SIGINT arm does not leave the loop (graceful)", "the SIGINT arm exits immediately")
-            if idx_term is not None and "_%d" % idx_term in arms:
-                reg = arm_region("_%d" % idx_term)
-                exits = [b_ for b_ in reg if any(s_ not in loop and m.blocks[s_]["term"]["k"] != "unreachable" and not m.blocks[s_]["cleanup"] for s_ in m.succ("n")[b_])]
-                r4.check(bool(exits), "sigterm:break", "the SIGTERM arm leaves the loop immediately", "SIGTERM no longer leaves the loop")
+                r4.check(not leaves(reg, av), "sigint:stays", "the SIGINT arm does not leave the loop (graceful)", "the SIGINT arm exits immediately")
+            for v_term, val in sig_arm.get("terminate", []):
+                if v_term not in arms:
+                    continue
+                reg, av = arm_region(v_term, val)
+                r4.check(bool(leaves(reg, av)), "sigterm:break", "the SIGTERM arm leaves the loop immediately", "SIGTERM no longer leaves the loop")
+                # `SIGTERM exits immediately`, whatever came before it: no path of the arm goes round the loop again (a second signal is not `already handled`)
+                back = m.uncrossed_path([arms[v_term]], [head], edges=av, blocks=[b_ for b_ in range(m.nblocks) if m.blocks[b_]["cleanup"]]) if head is not None else None
+                r4.check(back is None, "sigterm:leaves-on-every-path", "every path of the SIGTERM arm leaves the loop",
+                         "a path of the SIGTERM arm goes back to waiting (%s): a SIGTERM that arrives in that state - e.g. after SIGINT has started the graceful shutdown - does not end the process" %
+                         ("branching at " + ", ".join(str(m.blocks[b_]["term"].get("span")) for b_ in back if m.blocks[b_]["term"]["k"] == "switch")[:160] if back else ""),
+                         "bb%s" % back[-2] if back and len(back) > 1 else "")
             # exit channel arm and drain arm: arms _4 / _5 identified by the mpsc receivers
             mrecv = sorted(m.calls("re:^tokio::sync::mpsc::bounded::Receiver::recv$"), key=lambda c: c.block)
             exit_break = False
@@ -216,7 +278,7 @@ def run(ctx):
             for v, tgt in arms.items():
                 if not v.startswith("_"):
                     continue
-                reg = arm_region(v)
+                reg = arm_region(v)[0]
                 exits = [b_ for b_ in reg if any(s_ not in loop and m.blocks[s_]["term"]["k"] != "unreachable" and not m.blocks[s_]["cleanup"] for s_ in m.succ("n")[b_])]
                 tc = m.locals_named("total_clients")
                 writes_total = tc and any(d_[1] in reg for d_ in m.defs().get(tc[0], []))
@@ -230,7 +292,7 @@ def run(ctx):
                                 if o.kind == "bin" and o.what == "Eq" and (const_int(o.extra["b"]) == 0 or const_int(o.extra["a"]) == 0):
                                     eqz = True
                     drain_ok = bool(snd) and eqz
-                elif exits and v not in ("_%s" % idx_term,):
+                elif exits and v not in term_arms:
                     exit_break = True
             # `the process exits once all clients have left`: that nobody is left is decided in the drain arm alone, on a count that has taken in every ping queued
             # before - the SIGINT arm asks by queueing a ping of its own (0) behind them. Reading the counter in the SIGINT arm sees only the pings the loop has
@@ -238,16 +300,17 @@ def run(ctx):
             def chan_of(op):
                 return {o.call.block for o in origins(m, op, taint=True) if o.kind == "call" and o.call.name.endswith("mpsc::bounded::channel")}
             tc_ = m.locals_named("total_clients")
-            drain_arm = [v for v in arms if v.startswith("_") and tc_ and any(d_[1] in arm_region(v) for d_ in m.defs().get(tc_[0], []))]
-            if idx_int is not None and "_%d" % idx_int in arms and drain_arm:
-                dreg = arm_region(drain_arm[0])
+            drain_arm = [v for v in arms if v.startswith("_") and tc_ and any(d_[1] in arm_region(v)[0] for d_ in m.defs().get(tc_[0], []))]
+            int_arms = [(v, val) for v, val in sig_arm.get("interrupt", []) if v in arms]
+            if int_arms and drain_arm:
+                dreg = arm_region(drain_arm[0])[0]
                 # the exit channel: the one the drain arm signals when the count reaches 0 (select!'s output enum merges the receivers, the senders stay apart)
                 exch = set()
                 for c in m.calls("re:^tokio::sync::mpsc::bounded::Sender::(send|try_send)$"):
                     if c.block in dreg:
                         exch |= chan_of(c.args[0])
                 dch = exch
-                ireg = arm_region("_%d" % idx_int)
+                ireg = arm_region(*int_arms[0])[0]
                 isend = [c for c in m.calls("re:^tokio::sync::mpsc::bounded::Sender::(send|try_send)$") if c.block in ireg]
                 ping = [c for c in isend if chan_of(c.args[0]) and not (chan_of(c.args[0]) & exch) and const_int(c.args[1]) == 0]
                 stray = [c for c in isend if chan_of(c.args[0]) & exch]
